@@ -21,6 +21,11 @@ type ExploreConfig struct {
 	// Sharding: nodes at DFS-tree depth ShardDepth are distributed round-robin over
 	// ShardCount workers; this worker takes those with index%ShardCount==ShardIndex.
 	ShardIndex, ShardCount, ShardDepth int
+	// MaxFreeSwitches, when > 0, also bounds the number of non-default choices among the runnable threads at
+	// points where the running thread cannot continue (it blocked or ended). Those choices cost no deviation
+	// (the default is the runnable thread with the lowest id); with many short-lived threads their orders
+	// multiply, so scenarios with many threads bound them separately. 0 = unbounded.
+	MaxFreeSwitches int
 	// Determinism: every DetEvery-th execution (and every failing one) is executed twice.
 	DetEvery int64
 }
@@ -65,6 +70,7 @@ type item struct {
 	pos    int32
 	alt    uint16
 	cost   int8
+	free   int8 // non-default free scheduling choices so far
 	depth  int16
 }
 
@@ -226,6 +232,7 @@ func Explore(cfg ExploreConfig, body func()) *Stats {
 		nd := &node{parent: it.parent, trace: res.Trace}
 		start := 0
 		cum := 0
+		cumFree := int(it.free)
 		if it.parent != nil {
 			start = int(it.pos) + 1
 			cum = int(it.cost)
@@ -237,7 +244,14 @@ func Explore(cfg ExploreConfig, body func()) *Stats {
 				if cc > cfg.Bound {
 					continue
 				}
-				child := item{parent: nd, pos: int32(i), alt: uint16(alt), cost: int8(cc), depth: it.depth + 1}
+				ff := cumFree
+				if p.Kind == 0 && p.Cost(alt) == 0 { // a free choice among runnable threads
+					ff++
+					if cfg.MaxFreeSwitches > 0 && ff > cfg.MaxFreeSwitches {
+						continue
+					}
+				}
+				child := item{parent: nd, pos: int32(i), alt: uint16(alt), cost: int8(cc), free: int8(ff), depth: it.depth + 1}
 				if int(child.depth) == cfg.ShardDepth && cfg.ShardCount > 1 {
 					mine := shardCounter%cfg.ShardCount == cfg.ShardIndex
 					shardCounter++
